@@ -143,6 +143,18 @@ func runC18(c *core.Ctx) {
 					return node, 0, false
 				}
 				pol := polarity(p, &ir.Term{Op: "bin", Aux: "==", Args: sorted2(st.R, ir.Const(fmt.Sprint(EQ)))})
+				if pol == 0 {
+					// the traversal hands back the first node whose key is not less than the search key (that is what
+					// compare-normal-form and traversal-effects establish), so "not greater" is "equal": Compare(node key,
+					// key) != GT, or Compare(key, node key) != LT
+					other := GT
+					if !ir.Same(a, nk) {
+						other = LT
+					}
+					if p2 := polarity(p, &ir.Term{Op: "bin", Aux: "==", Args: sorted2(st.R, ir.Const(fmt.Sprint(other)))}); p2 != 0 {
+						pol = -p2
+					}
+				}
 				if pol == 0 || isNil == 0 {
 					return node, 0, false
 				}
